@@ -303,3 +303,8 @@ def equations(quick):
         for l, r in itertools.product(sides, repeat=2):
             out.append("%s = %s" % (l, r))
     return out
+
+
+def build_const(v):
+    from mathy_core.expressions import ConstantExpression
+    return ConstantExpression(v)
